@@ -222,7 +222,7 @@ def bounded(ctx, real, rng):
         return rng.choice(globsets)
 
     evals, nontrivial, samples, fail = 0, set(), [], None
-    rounds = 300 if ctx.tier == "quick" else 3000
+    rounds = 1500 if ctx.tier == "quick" else 6000
     for r in range(rounds):
         c = real.Copyright()
         model = []          # per paragraph: glob list (Files) or None (License)
